@@ -3,8 +3,13 @@
 against the CURRENT /repo tree, run the quick check on each, and store the confirmed ones under /verif/seeded/<ID>-<n>/."""
 import sys, os, subprocess, tempfile, shutil, json, time
 pid = sys.argv[1]
-src = "/tmp/seed/%s/out" % pid
-ns = sys.argv[2:] or sorted(os.listdir(src))
+sfx = ""
+args = sys.argv[2:]
+if args and args[0] == "--suffix":
+    sfx = args[1]
+    args = args[2:]
+src = "/tmp/seed/%s%s/out" % (pid, sfx)
+ns = args or sorted(os.listdir(src))
 tier = os.environ.get("SEED_TIER", "quick")
 for n in ns:
     d = os.path.join(src, n)
@@ -42,7 +47,7 @@ for n in ns:
     res["detected"] = res.get("check_exit") == 1
     print(json.dumps(res, indent=1))
     if ok:
-        out = "/verif/seeded/%s-%s" % (pid, n)
+        out = "/verif/seeded/%s-%s%s" % (pid, sfx, n)
         os.makedirs(out, exist_ok=True)
         shutil.copy(os.path.join(d, "patch.diff"), out)
         shutil.copy(os.path.join(d, "demo.py"), out)
